@@ -69,7 +69,11 @@ CanUnlock(p, r) == lockedV[p] # None /\ \E r2 \in Rounds, w \in Blocks \cup {Nil
 Prevote(p, r, v) ==
   /\ pos[p] < 2*r - 1
   /\ \/ lockedV[p] = None /\ UNCHANGED <<lockedR, lockedV>>
-     \/ lockedV[p] # None /\ v \in {lockedV[p], Nil} /\ UNCHANGED <<lockedR, lockedV>>
+     \/ lockedV[p] # None /\ v = lockedV[p] /\ UNCHANGED <<lockedR, lockedV>>
+        \* (a locked validator prevotes its locked block - never nil.  The property's wording "prevotes no other BLOCK"
+        \* would admit nil, and with that weaker obligation TLC refutes Agreement at three rounds: validators locked
+        \* on A prevote nil at round 2, that nil polka - made by themselves - unlocks them, and B is decided at round 3
+        \* although A was decided at round 1.  The handlers obey the stronger rule: see KardiaNode!LockRespected.)
      \/ CanUnlock(p, r) /\ lockedR' = [lockedR EXCEPT ![p] = 0] /\ lockedV' = [lockedV EXCEPT ![p] = None]
   /\ pv' = [pv EXCEPT ![p][r] = v]
   /\ pos' = [pos EXCEPT ![p] = 2*r - 1]
